@@ -107,7 +107,8 @@ InDefs == \E i \in 1..Len(open) : nodes[open[i]].tag \in {"defs", "symbol"}
 
 GradIds == Ids({"linearGradient", "radialGradient"})
 GradFill(at) == IF Focus \in {"grad", "mixed"} /\ GradIds # {} /\ MaybeN(126, IF Focus = "grad" THEN 80 ELSE 30)
-                THEN SelectSeq(at, LAMBDA t : t[1] # "fill") \o << <<"fill", "url(#" \o PickN(127, GradIds) \o ")", 0>> >>
+                THEN SelectSeq(at, LAMBDA t : t[1] # "fill") \o << <<"fill", "url(#" \o PickN(127, GradIds) \o ")", 0>>,
+                                                                 <<"fillref", PickN(127, GradIds), 0>> >>
                 ELSE at
 
 ShapeAttrs == IF InClip
@@ -195,11 +196,13 @@ AddGradient ==
          bbox  == units # "userSpaceOnUse"
          ua    == IF units = "" THEN <<>> ELSE << <<"gradientUnits", units, 0>> >>
          lin   == MaybeN(166, 55)
-         C(v)  == IF bbox THEN PickN(167, {"0%", "25%", "50%", "100%", "0.5", "1", "0"}) ELSE v
+         \* a coordinate is <<n, d, pct>>: the number n/d, written as a percentage when pct = 1
+         BB == { <<0, 1, 1>>, <<25, 1, 1>>, <<50, 1, 1>>, <<100, 1, 1>>, <<75, 1, 1>>, <<1, 2, 0>>, <<1, 1, 0>>, <<0, 1, 0>>, <<1, 4, 0>> }
+         C(i, v) == IF bbox THEN PickN(i, BB) ELSE <<v, 1, 0>>
          coords == IF lin
-                   THEN Opt(168, "x1", {C(2)}, 70) \o Opt(169, "y1", {C(3)}, 60) \o Opt(170, "x2", {C(12)}, 80) \o Opt(171, "y2", {C(9)}, 60)
-                   ELSE Opt(172, "cx", {C(8)}, 75) \o Opt(173, "cy", {C(7)}, 75) \o Opt(174, "r", {C(6)}, 80)
-                        \o Opt(175, "fx", {C(6)}, 25) \o Opt(176, "fy", {C(7)}, 25)
+                   THEN Opt(168, "x1", {C(561, 2)}, 70) \o Opt(169, "y1", {C(562, 3)}, 60) \o Opt(170, "x2", {C(563, 12)}, 80) \o Opt(171, "y2", {C(564, 9)}, 60)
+                   ELSE Opt(172, "cx", {C(565, 8)}, 75) \o Opt(173, "cy", {C(566, 7)}, 75) \o Opt(174, "r", {IF bbox THEN PickN(567, BB \ {<<0, 1, 1>>, <<0, 1, 0>>}) ELSE <<6, 1, 0>>}, 80)
+                        \o Opt(175, "fx", {C(568, 6)}, 20) \o Opt(176, "fy", {C(569, 7)}, 20)
          coordsA == [k \in 1..Len(coords) |-> <<coords[k][1], coords[k][2], 0>>]
          href  == IF GradIds # {} /\ MaybeN(177, 30) THEN PickN(178, GradIds) ELSE ""
      IN Push([d |-> Depth, tag |-> IF lin THEN "linearGradient" ELSE "radialGradient", id |-> NewId,
